@@ -132,7 +132,19 @@ def build(kind, obs=2.0):
         S2 = elfi.Summary(scaled_col1, Y, model=m, name='S2')
         elfi.AdaptiveDistance(S1, S2, model=m, name='d')
         return m, 'd', ['S1', 'S2']
+    if kind == 'MadaptV':   # adaptive distance over ONE vector-valued summary (a (batch, 2) float array)
+        t2 = elfi.Prior('uniform', 0, 4, model=m, name='zb')
+        t1 = elfi.Prior('uniform', 0, 4, model=m, name='a')
+        Y = elfi.Simulator(sim_gauss2, t1, t2, model=m, name='Y', observed=np.array([[obs, 1.0]]))
+        SV = elfi.Summary(both_cols_scaled, Y, model=m, name='SV')
+        elfi.AdaptiveDistance(SV, model=m, name='d')
+        return m, 'd', ['SV']
     raise KeyError(kind)
+
+
+def both_cols_scaled(y):
+    _bump('sum')
+    return np.column_stack([y[:, 0], 10.0 * y[:, 1]])
 
 
 def scaled_col1(y):
